@@ -9,7 +9,7 @@ RULE = ("programs that push inner packet sequences (TCP handshakes/messages, UDP
         "compared with the frames the same program emits without the encapsulating calls. Non-trivial = at least one "
         "encapsulated packet; distinct = (layer kinds+raw flags, inner kinds, counts)")
 
-PROOF_MODULES = ['Resynth.Props.C06', 'Resynth.Props.C06Any']
+PROOF_MODULES = ['Resynth.Props.C06', 'Resynth.Props.C06Any', 'Resynth.Props.C14Heap']
 
 KINDS = ['vxlan', 'gre', 'erspan1', 'erspan2']
 
